@@ -378,8 +378,18 @@ func NormCond(c Cond) (Rel, bool) {
 	return Rel{}, false
 }
 
+// constOfValue: the constant v is, also when v is the parameter of a transparent helper
+// that receives a constant at its call site in focus, or the single value a carrier field holds.
+func constOfValue(v ssa.Value) (*ssa.Const, bool) {
+	if k, ok := peel(v).(*ssa.Const); ok {
+		return k, true
+	}
+	k, ok := peel(unhelp(peel(v))).(*ssa.Const)
+	return k, ok
+}
+
 func isIntConst(v ssa.Value, n int64) bool {
-	k, ok := peel(v).(*ssa.Const)
+	k, ok := constOfValue(v)
 	if !ok || k.Value == nil || k.Value.Kind() != constant.Int {
 		return false
 	}
@@ -393,7 +403,7 @@ func isNilConst(v ssa.Value) bool {
 }
 
 func constBool(v ssa.Value) (bool, bool) {
-	k, ok := peel(v).(*ssa.Const)
+	k, ok := constOfValue(v)
 	if !ok || k.Value == nil || k.Value.Kind() != constant.Bool {
 		return false, false
 	}
@@ -401,7 +411,7 @@ func constBool(v ssa.Value) (bool, bool) {
 }
 
 func constString(v ssa.Value) (string, bool) {
-	k, ok := peel(v).(*ssa.Const)
+	k, ok := constOfValue(v)
 	if !ok || k.Value == nil || k.Value.Kind() != constant.String {
 		return "", false
 	}
@@ -409,7 +419,7 @@ func constString(v ssa.Value) (string, bool) {
 }
 
 func constInt(v ssa.Value) (int64, bool) {
-	k, ok := peel(v).(*ssa.Const)
+	k, ok := constOfValue(v)
 	if !ok || k.Value == nil || k.Value.Kind() != constant.Int {
 		return 0, false
 	}
